@@ -252,7 +252,7 @@ impl<'a> Walker<'a> {
 
 pub fn setup_from_model(m: &Value) -> Setup {
     Setup {
-        same_prefix: false,
+        same_prefix: m["samePrefix"].as_bool().unwrap_or(false),
         treasury: !m["treasury"].as_str().unwrap_or("").is_empty(),
         oracle: !m["oracle"].as_str().unwrap_or("").is_empty(),
         fee: m["fee"].as_u64().unwrap_or(0) as u128,
